@@ -49,7 +49,8 @@ OPS = ("check", "compile_function", "compile")
 # dependencies) get extra slots
 C11_MISTAKES = gen.MISTAKES + ("nested_recursive_body_fails",) * 3 + \
     ("comptime_raises", "comptime_expr_raises", "assign_captured", "struct_bad_field_type",
-     "family_body_fails", "struct_methods_override_fields", "nested_recursive_body_fails")
+     "family_body_fails", "struct_methods_override_fields", "nested_recursive_body_fails",
+     "lowering_fails", "lowering_fails")
 
 
 def warm() -> None:
